@@ -1669,6 +1669,8 @@ def run(ctx):
 
 
 SELFTESTS = [
+    (rule_rewind_changes_state, ["c07_rewind_bad.cc"], ["c07_rewind_good.cc"], "rewind of thisbit"),
+    (rule_bitstream_access, ["c07_rewind_bad.cc"], ["c07_rewind_good.cc"], "scan_for::getbit"),
     (rule_throw_types, ["c07_throw_bad.cc"], ["c07_throw_good.cc"], "throw"),
     (rule_optional_access, ["c07_opt_bad.cc"], ["c07_opt_good.cc"], "use_unchecked"),
     (rule_short_reads, ["c07_read_bad.cc"], ["c07_read_good.cc"], "parse_header"),
